@@ -13,6 +13,7 @@
 """
 from __future__ import annotations
 
+import gc
 import hashlib
 import json
 import os
@@ -304,6 +305,8 @@ def run(rep):
         rep.bounds[f"universe_{kind}"] = dict(cases=len(cases), L1=l1, L2=l2)
     lap("tlc_universes")
     cars = Carriers()
+    gc.collect()
+    gc.freeze()          # the enumerated universes stay; spare the collector re-walking them during the replay
     rep.bounds["replayed"] = _replay_universes(rep, cars, uni)
     rep.exhaustive = True
     lap("textx_universes")
